@@ -133,3 +133,17 @@ vharness! {
         std::mem::forget(set);
     }
 }
+
+vharness! {
+    /// @prop C19 @tier quick @mode fast @funcs Set::new,Set::new_thread @must_fail "self.threads.len\(\) < self.max\(\)" @bounds max_threads = 3
+    /// creating more threads than max_threads is refused by an assertion exactly at the limit (the first max_threads - 1 spawns succeed).
+    #[cfg_attr(kani, kani::unwind(8))]
+    fn thread_capacity() {
+        let mut set = Set::new(crate::rt::execution::verif::id(EXEC_ID), 3);
+        set.new_thread();
+        set.new_thread();
+        assert!(set.threads.len() == 3);
+        set.new_thread();
+        assert!(false, "VERIF_MARKER: a thread was created beyond max_threads");
+    }
+}
